@@ -99,3 +99,44 @@ PROPS["C06"] = {
         },
     ],
 }
+
+_ALLOUT = '{"ok", "http4xx", "http5xx", "refuse", "timeout"}'
+PROPS["C07"] = {
+    "rule": "TLC generates health-checking scenarios for one endpoint over {SetBackend(outcome), Tick(d), Round, "
+            "ProxyFailure}: a transition cover (one shortest scenario per reachable core state of HealthSched) for "
+            "restricted outcome alphabets plus seeded random walks over the full alphabet; each runs on the real "
+            "HTTPHealthChecker/HealthClient/CircuitBreaker/StaticEndpointRepository/RetryHandler against a scripted "
+            "HTTP backend with logical time. Non-trivial = contains a failing outcome or a ProxyFailure.",
+    "exhaustive": False,
+    "assumptions": ["logical time is implemented by shifting stored timestamps; residual real-time error < 1 s "
+                    "never crosses a comparison because all model times are whole seconds"],
+    "parts": [
+        {
+            "name": "sched",
+            "mc": [
+                {"module": "HealthSched", "cfg": "HealthSched_mc.cfg"},
+                {"module": "HealthSched", "cfg": "HealthSched_sched.cfg"},
+                {"module": "HealthSched", "cfg": "HealthSched_live.cfg"},
+            ],
+            "quick": {"gen": [
+                {"module": "HealthSchedGen", "cfg": "HealthSched_gen.cfg",
+                 "params": {"CIs": "{5}", "Outcomes": '{"ok", "http5xx"}', "Ticks": "{7, 61}", "ReachLen": 18, "SufLen": 0}},
+                {"module": "HealthSchedGen", "cfg": "HealthSched_gen.cfg",
+                 "params": {"CIs": "{1}", "Outcomes": '{"ok", "http4xx"}', "Ticks": "{7}", "ReachLen": 20, "SufLen": 1}},
+                {"module": "HealthSchedGen", "cfg": "HealthSched_sim.cfg", "simulate": {"num": 120, "depth": 30},
+                 "params": {"CIs": "{1, 5, 20}", "Outcomes": _ALLOUT, "Ticks": "{7, 31, 61}", "ReachLen": 24, "SufLen": 0}},
+            ]},
+            "thorough": {"gen": [
+                {"module": "HealthSchedGen", "cfg": "HealthSched_gen.cfg",
+                 "params": {"CIs": "{1, 5, 20}", "Outcomes": '{"ok", "http5xx", "http4xx"}', "Ticks": "{7, 31, 61}", "ReachLen": 18, "SufLen": 1}},
+                {"module": "HealthSchedGen", "cfg": "HealthSched_gen.cfg",
+                 "params": {"CIs": "{1, 5}", "Outcomes": '{"ok", "refuse", "timeout"}', "Ticks": "{7, 61}", "ReachLen": 14, "SufLen": 1}},
+                {"module": "HealthSchedGen", "cfg": "HealthSched_sim.cfg", "simulate": {"num": 2500, "depth": 40},
+                 "params": {"CIs": "{1, 5, 20}", "Outcomes": _ALLOUT, "Ticks": "{7, 31, 61}", "ReachLen": 30, "SufLen": 0}},
+            ]},
+            "pkg": "internal/adapter/health", "test": "TestVerif_HealthSched",
+            "trace": {"module": "HealthSchedTrace", "cfg": "HealthSched_trace.cfg"},
+            "nontrivial": lambda s: any((isinstance(x, list) and x[0] in ("SetBackend", "Start") and x[-1] != "ok") or x == "ProxyFailure" for x in s),
+        },
+    ],
+}
